@@ -331,6 +331,7 @@ package resolve
 //@ spec jnull(v *astjson.Value) bool = v == nil || jtype(global(jver), v) == astjson.TypeNull
 //@ spec rendering(r *Resolvable) bool = r.enableRender && (!r.deferMode || r.enableDeferRender)
 //@ spec pathOK(p []string) bool = p == nil || len(p) >= 1
+//@ spec modeSame(r *Resolvable) bool = r.enableRender == old(r.enableRender) && r.deferMode == old(r.deferMode) && r.enableDeferRender == old(r.enableDeferRender)
 
 // plan accessors (interface Node) and renderer hooks
 //@ spec nodeKind(n Node) NodeKind
@@ -476,7 +477,7 @@ package resolve
 //@   ensures {null.bubbles.iff.nonnull} isnull ==> (result <==> !nullable)
 //@   ensures {wrong.kind.rejected} !isnull && !kindok ==> result
 //@   ensures {right.kind.accepted} !isnull && kindok ==> !result
-//@   ensures {mode.unchanged} rendering(r) == old(rendering(r))
+//@   ensures {mode.unchanged} modeSame(r)
 //@   ensures {stack.restored} len(r.path) == old(len(r.path))
 //@   modifies *, count(*)
 
@@ -489,7 +490,7 @@ package resolve
 //@   ensures {null.bubbles.iff.nonnull} isnull ==> (result <==> !nullable)
 //@   ensures {wrong.kind.rejected} !isnull && !kindok ==> result
 //@   ensures {right.kind.accepted} !isnull && kindok ==> !result
-//@   ensures {mode.unchanged} rendering(r) == old(rendering(r))
+//@   ensures {mode.unchanged} modeSame(r)
 //@   ensures {stack.restored} len(r.path) == old(len(r.path))
 //@   modifies *, count(*)
 
@@ -504,7 +505,7 @@ package resolve
 //@   ensures {wrong.kind.rejected} !isnull && !kindok ==> result
 //@   ensures {right.kind.accepted} !isnull && kindok && integral ==> !result
 //@   ensures {non.integral.number.rejected} !isnull && kindok && !integral ==> result
-//@   ensures {mode.unchanged} rendering(r) == old(rendering(r))
+//@   ensures {mode.unchanged} modeSame(r)
 //@   ensures {stack.restored} len(r.path) == old(len(r.path))
 //@   modifies *, count(*)
 
@@ -519,7 +520,7 @@ package resolve
 //@   ensures {null.bubbles.iff.nonnull} isnull ==> (result <==> !nullable)
 //@   ensures {wrong.kind.rejected} !rend && !isnull && !kindok ==> result
 //@   ensures {right.kind.accepted} !isnull && kindok ==> !result
-//@   ensures {mode.unchanged} rendering(r) == old(rendering(r))
+//@   ensures {mode.unchanged} modeSame(r)
 //@   ensures {stack.restored} len(r.path) == old(len(r.path))
 //@   modifies *, count(*)
 
@@ -530,7 +531,7 @@ package resolve
 //@   let nullable = b.Nullable
 //@   ensures {null.bubbles.iff.nonnull} isnull ==> (result <==> !nullable)
 //@   ensures {any.value.accepted} !isnull ==> !result
-//@   ensures {mode.unchanged} rendering(r) == old(rendering(r))
+//@   ensures {mode.unchanged} modeSame(r)
 //@   ensures {stack.restored} len(r.path) == old(len(r.path))
 //@   modifies *, count(*)
 
@@ -541,7 +542,7 @@ package resolve
 //@   let nullable = s.Nullable
 //@   ensures {null.bubbles.iff.nonnull} isnull ==> (result <==> !nullable)
 //@   ensures {any.value.accepted} !isnull ==> !result
-//@   ensures {mode.unchanged} rendering(r) == old(rendering(r))
+//@   ensures {mode.unchanged} modeSame(r)
 //@   ensures {stack.restored} len(r.path) == old(len(r.path))
 //@   modifies *, count(*)
 
@@ -553,7 +554,7 @@ package resolve
 //@   let nullable = e.Nullable
 //@   ensures {null.bubbles.iff.nonnull} isnull ==> (result <==> !nullable)
 //@   ensures {wrong.kind.rejected} !isnull && !kindok ==> result
-//@   ensures {mode.unchanged} rendering(r) == old(rendering(r))
+//@   ensures {mode.unchanged} modeSame(r)
 //@   ensures {stack.restored} len(r.path) == old(len(r.path))
 //@   modifies *, count(*)
 
@@ -563,7 +564,7 @@ package resolve
 //@   let isnull = jnull(v)
 //@   let nullable = c.Nullable
 //@   ensures {null.bubbles.iff.nonnull} isnull ==> (result <==> !nullable)
-//@   ensures {mode.unchanged} rendering(r) == old(rendering(r))
+//@   ensures {mode.unchanged} modeSame(r)
 //@   ensures {stack.restored} len(r.path) == old(len(r.path))
 //@   modifies *, count(*)
 
@@ -587,28 +588,28 @@ package resolve
 
 //@ func Resolvable.walkNode
 //@   requires r != nil
-//@   ensures {mode.unchanged} rendering(r) == old(rendering(r))
+//@   ensures {mode.unchanged} modeSame(r)
 //@   ensures {stack.restored} len(r.path) == old(len(r.path))
 //@   modifies *, count(*)
 
 //@ func Resolvable.walkUnreachedItem
 //@   requires r != nil
-//@   ensures {mode.unchanged} rendering(r) == old(rendering(r))
+//@   ensures {mode.unchanged} modeSame(r)
 //@   ensures {stack.restored} len(r.path) == old(len(r.path))
 //@   modifies *, count(*)
 
 //@ func Resolvable.walkUnreachedFields
 //@   requires r != nil
-//@   ensures {mode.unchanged} rendering(r) == old(rendering(r))
+//@   ensures {mode.unchanged} modeSame(r)
 //@   ensures {stack.restored} len(r.path) == old(len(r.path))
 //@   modifies *, count(*)
 //@   loop 0:
-//@     invariant len(r.path) == old(len(r.path)) && rendering(r) == old(rendering(r))
+//@     invariant len(r.path) == old(len(r.path)) && modeSame(r)
 
 //@ func Resolvable.emitUnreachedFieldDeny
 //@   requires r != nil
 //@   assumes r.authorization != nil
-//@   ensures {mode.unchanged} rendering(r) == old(rendering(r))
+//@   ensures {mode.unchanged} modeSame(r)
 //@   ensures {stack.restored} len(r.path) == old(len(r.path))
 //@   modifies *, count(*)
 
@@ -624,12 +625,38 @@ package resolve
 //@   modifies r.path, elems(r.path), r.depth, r.errors, r.valueCompletion, global(jver), global(ext), count(errorAdded)
 //@   trusted effect summary: reports one error / value completion for an inaccessible enum value
 
+//@ func Resolvable.printDeferEnvelopeOpen
+//@   requires r != nil
+//@   modifies r.printErr, global(ext), count(printed), count(ioWrite)
+//@ func Resolvable.printDeferEnvelopeClose
+//@   requires r != nil
+//@   modifies r.printErr, r.marshalBuf, elems(r.marshalBuf), global(ext), count(printed), count(ioWrite)
+//@   trusted prints the closing part of an incremental item (id, subPath, errors); writes only the output
+//@ func Resolvable.collectDeferFields
+//@   pure
+//@   trusted partitions the object's fields by defer id into two fresh maps; reads the plan only
+//@ func Resolvable.recordObjectTypeStats
+//@   requires r != nil
+//@   modifies allmaps(r.typeNameStats)
+//@   trusted cost-control bookkeeping in r.typeNameStats only
+//@ func Resolvable.addValueCompletionWithPath
+//@   requires r != nil
+//@   modifies r.valueCompletion, global(jver), global(ext), count(errorAdded)
+//@   trusted effect summary: appends one value-completion entry
+//@ func Resolvable.pathLastElementDescription
+//@   pure
+//@   trusted message formatting; reads r.path only
+//@ func Object.isAbstract
+//@   pure
+//@   trusted plan accessor
+
 //@ func Resolvable.walkObject
 //@   requires r != nil
-//@   ensures {mode.unchanged} rendering(r) == old(rendering(r))
+//@   assumes pathOK(obj.Path)
+//@   at call Resolvable.addError: assert {error.path.is.the.response.path} len(r.path) + len(arg2) == old(len(r.path)) + len(obj.Path)
+//@   ensures {mode.unchanged} modeSame(r)
 //@   ensures {stack.restored} len(r.path) == old(len(r.path))
 //@   modifies *, count(*)
-//@   trusted (for now) 170-line function with deferred closures and defer-mode rendering; contract pending
 
 // walkArray: callee preconditions of astjson (SetNull needs a non-empty path), null bubbling guards,
 // path stack restored on every path
@@ -638,6 +665,7 @@ package resolve
 //@   assumes pathOK(arr.Path)
 //@   assumes r.options.EnableCostControl ==> r.typeNameStats != nil
 //@   let rend = rendering(r)
+//@   at call Resolvable.addError: assert {error.path.is.the.response.path} len(r.path) + len(arg2) == old(len(r.path)) + len(arr.Path)
 //@   at call SetNull: assert {array.nulled.only.if.nullable} arr.Nullable
 //@   at call SetNull: assert {nearest.nullable.ancestor.first} !(nodeNullable(arr.Item) && (nodeKind(arr.Item) == NodeKindObject || nodeKind(arr.Item) == NodeKindArray))
 //@   at call SetArrayItem: assert {item.nulled.only.if.nullable.container} nodeNullable(arr.Item) && (nodeKind(arr.Item) == NodeKindObject || nodeKind(arr.Item) == NodeKindArray)
@@ -650,19 +678,19 @@ package resolve
 //@   at call walkNode: ghost g_walks = g_walks + 1
 //@   at call SetNull: ghost g_listNulled = true
 //@   ensures {prewalk.visits.every.item} !rend && !result && g_isArray && !g_listNulled ==> g_n >= 0 && g_walks == g_n
-//@   ensures {mode.unchanged} rendering(r) == old(rendering(r))
+//@   ensures {mode.unchanged} modeSame(r)
 //@   ensures {stack.restored} len(r.path) == old(len(r.path))
 //@   modifies *, count(*)
 //@   loop 0:
 //@     invariant len(r.path) == old(len(r.path)) + len(arr.Path)
-//@     invariant rendering(r) == rend && g_isArray && g_n == len(values) && !g_listNulled && g_walks == 0
+//@     invariant modeSame(r) && rendering(r) == rend && g_isArray && g_n == len(values) && !g_listNulled && g_walks == 0
 //@   loop 1:
 //@     invariant len(r.path) == old(len(r.path)) + len(arr.Path)
-//@     invariant rendering(r) == rend && g_isArray && g_n == len(values) && !g_listNulled
+//@     invariant modeSame(r) && rendering(r) == rend && g_isArray && g_n == len(values) && !g_listNulled
 //@     invariant !rend ==> g_walks == i
 
 //@ func Resolvable.walkFields
-//@   requires r != nil && obj != nil
+//@   requires r != nil
 //@   assumes forall k in 0..len(obj.Fields) :: obj.Fields[k] != nil && isFieldValue(obj.Fields[k].Value)
 //@   at call SetNull: assert {null.only.in.prewalk} !rendering(r)
 //@   ghost itervar g_denied bool = false
@@ -674,11 +702,11 @@ package resolve
 //@   ensures {denied.field.nulled.or.bubbled} !result ==> !g_pendingDeny
 //@   at call walkNode: assert {denied.field.not.walked} !g_denied
 //@   at call printBytes: assert {denied.field.not.printed} !g_denied
-//@   ensures {mode.unchanged} rendering(r) == old(rendering(r))
+//@   ensures {mode.unchanged} modeSame(r)
 //@   ensures {stack.restored} len(r.path) == old(len(r.path))
 //@   modifies *, count(*)
 //@   loop 0:
-//@     invariant len(r.path) == old(len(r.path)) && rendering(r) == old(rendering(r))
+//@     invariant len(r.path) == old(len(r.path)) && modeSame(r)
 //@     invariant {denied.field.handled.before.next.field} !g_pendingDeny
 
 //@ func Resolvable.authorizeField
@@ -697,7 +725,7 @@ package resolve
 
 //@ func Resolvable.recordFieldReached
 //@   requires r != nil
-//@   ensures {mode.unchanged} rendering(r) == old(rendering(r))
+//@   ensures {mode.unchanged} modeSame(r)
 //@   ensures {stack.restored} len(r.path) == old(len(r.path))
 //@   modifies *
 //@   trusted bookkeeping for the unreached-field authorization walk; does not touch the path stack
